@@ -191,6 +191,19 @@ R17 = {
  "C18": "the byte count of a flow-control window is written only by the window type's own operations",
  "C19": "no list whose order is meaningful on reload (extends, filters, chains, routes, virtual hosts, weighted clusters, hosts) is sorted on the dump path",
 }
+R18 = {
+ "C03": "the global timer notes its expiry in the sticky flag before its CAS on the response mark",
+ "C04": "a route whose regex header or method condition does not compile is refused",
+ "C07": "bolt and boltv2 decode a frame only when its protocol code byte is their own",
+ "C08": "bolt and boltv2 decode a frame only when its protocol code byte is their own",
+ "C09": "a pool that dials before it creates the codec client tells the client that it is connected; a pooled client removes its pool entry by identity, not by key",
+ "C10": "a pooled client removes its pool entry by identity; the multiplex pool remembers a go-away in a word the reconnect logic never rewrites",
+ "C11": "the stage manager releases the main goroutine once (every wg.Done behind a one-shot CAS)",
+ "C13": "configured ALPN protocols are stored lower-cased and trimmed",
+ "C14": "ip_access rejects an address it cannot evaluate against a deny list",
+ "C17": "the global timer notes its expiry before the CAS on the response mark; the xDS conversion carries the header actions and host_rewrite_literal; every route rule type applies the configured path action",
+ "C20": "the sds_source of a typed TLS context is replaced by a fresh copy that passed the raw-JSON redactor",
+}
 GENERIC = "generic hygiene over the property's packages: no loop-variable address escapes its iteration, every mutex acquired in a function is released on every path to its return and not re-acquired in a callee, a field accessed through sync/atomic is never accessed plainly outside construction (frozen exceptions), storage given back to a pool is not returned or stored, no append onto a loop-invariant slice whose result is kept, no signed remainder of a converted unsigned 64-bit value or of a wrapping signed 32-bit counter, no remainder of a 32-bit sum with an unreduced atomic counter, a receiver field a method rewrites is not retained by what the method hands it to, a key looked up in a map field under a mutex and inserted when absent is inserted in the same critical section"
 props = [json.loads(l)['id'] for l in open('/verif/properties.jsonl')]
 checks, na = [], []
@@ -214,6 +227,8 @@ for p in props:
         dec = dec + "; " + R16[p]
     if p in R17:
         dec = dec + "; " + R17[p]
+    if p in R18:
+        dec = dec + "; " + R18[p]
     dec = dec + "; " + GENERIC
     tech = tech + ", lock-balance and atomic-discipline dataflow"
     if p in R8:
